@@ -24,6 +24,33 @@ pub enum FoldKind {
     Sum,
     Product,
     SumOfProducts,
+    /// resumable iterator with a `None` after the first ceil(len/2) items: (sum of the items before
+    /// the gap) - (sum of the items after it, obtained by a second call on the same iterator)
+    SplitSum,
+    /// same for products: (product before the gap) * (product after the gap)^2
+    SplitProduct,
+}
+/// An iterator that is not fused: it yields `items[..gap]`, then `None` once, then `items[gap..]`,
+/// then `None` for good. `Sum`/`Product` must stop at the first `None` and leave the rest alone.
+pub struct Burst<'a, T> {
+    pub items: &'a [T],
+    pub pos: usize,
+    pub gap: usize,
+    pub paused: bool,
+}
+impl<'a, T: Copy> Iterator for Burst<'a, T> {
+    type Item = T;
+    fn next(&mut self) -> Option<T> {
+        if self.pos == self.gap && !self.paused {
+            self.paused = true;
+            return None;
+        }
+        let r = self.items.get(self.pos).copied();
+        if r.is_some() {
+            self.pos += 1;
+        }
+        r
+    }
 }
 pub struct Bin<F> {
     pub name: &'static str,
@@ -188,6 +215,33 @@ macro_rules! impl_fieldlike {
                     FoldF { name: "Sum<&Self> over filter()", kind: FoldKind::Sum, f: |a, _| a.iter().filter(|_| true).sum() },
                     FoldF { name: "Product<Self> over filter()", kind: FoldKind::Product, f: |a, _| a.iter().copied().filter(|_| true).product() },
                     FoldF { name: "Product<&Self> over flat_map()", kind: FoldKind::Product, f: |a, _| a.iter().flat_map(|x| Some(x)).product() },
+                    // resumable (non-fused) iterators: stop at the first None, leave the remainder in place
+                    FoldF { name: "Sum<Self> over a resumable iterator", kind: FoldKind::SplitSum, f: |a, _| {
+                        let mut it = Burst { items: a, pos: 0, gap: (a.len() + 1) / 2, paused: false };
+                        let first: $F = it.by_ref().sum();
+                        let second: $F = it.by_ref().sum();
+                        first - second
+                    } },
+                    FoldF { name: "Sum<&Self> over a resumable iterator", kind: FoldKind::SplitSum, f: |a, _| {
+                        let refs: Vec<&$F> = a.iter().collect();
+                        let mut it = Burst { items: &refs[..], pos: 0, gap: (a.len() + 1) / 2, paused: false };
+                        let first: $F = it.by_ref().sum();
+                        let second: $F = it.by_ref().sum();
+                        first - second
+                    } },
+                    FoldF { name: "Product<Self> over a resumable iterator", kind: FoldKind::SplitProduct, f: |a, _| {
+                        let mut it = Burst { items: a, pos: 0, gap: (a.len() + 1) / 2, paused: false };
+                        let first: $F = it.by_ref().product();
+                        let second: $F = it.by_ref().product();
+                        first * second * second
+                    } },
+                    FoldF { name: "Product<&Self> over a resumable iterator", kind: FoldKind::SplitProduct, f: |a, _| {
+                        let refs: Vec<&$F> = a.iter().collect();
+                        let mut it = Burst { items: &refs[..], pos: 0, gap: (a.len() + 1) / 2, paused: false };
+                        let first: $F = it.by_ref().product();
+                        let second: $F = it.by_ref().product();
+                        first * second * second
+                    } },
                 ];
                 #[cfg(feature = "ark")]
                 {
